@@ -3734,11 +3734,11 @@ class Client:
                     elif m.qos == 2:
                         # self._inflight_messages = self._inflight_messages + 1
                         if self._check_clean_session():
-                            if m.state != mqtt_ms_publish:
+                            if m.state not in (mqtt_ms_publish, mqtt_ms_queued):
                                 m.dup = True
                             m.state = mqtt_ms_publish
                         else:
-                            if m.state == mqtt_ms_wait_for_pubcomp:
+                            if m.state in (mqtt_ms_wait_for_pubcomp, mqtt_ms_resend_pubrel):
                                 m.state = mqtt_ms_resend_pubrel
                             else:
                                 if m.state == mqtt_ms_wait_for_pubrec:
